@@ -15,21 +15,10 @@
 import O2P.Props.C03
 import O2P.Props.C02
 import O2P.Props.C09
+import O2P.Model.CsrfLoad
 
 namespace O2P.ComposeCsrf
 open O2P
-
-/-- `decodeCSRFCookie`: validate under the cookie secret / cookie-expire, then decrypt + unmarshal -/
-def csrfDecode (mac : Str → Str → Str) (decode : Str → Option CSRF) (secret : Str) (expireNs nowNs : Int)
-    (name value : Str) : Option CSRF :=
-  match validate mac name value secret expireNs nowNs with
-  | none => none
-  | some (bytes, _) => decode bytes
-
-/-- `LoadCSRFCookie`: the FIRST request cookie of that name that decodes without error -/
-def csrfLoad (mac : Str → Str → Str) (decode : Str → Option CSRF) (secret : Str) (expireNs nowNs : Int)
-    (cookies : List (Str × Str)) (name : Str) : Option CSRF :=
-  cookies.findSome? (fun c => if c.1 = name then csrfDecode mac decode secret expireNs nowNs name c.2 else none)
 
 theorem csrfLoad_some {mac : Str → Str → Str} {decode : Str → Option CSRF} {secret : Str} {expireNs nowNs : Int}
     {cookies : List (Str × Str)} {name : Str} {c : CSRF}
